@@ -19,6 +19,7 @@
     `traversal_progress`              the partial ("strict") semantics is defined on the whole list
     `no_stuck_step`                   statement number k, on the stream the first k statements produce,
                                       is not stuck: `evalStepStrict … ≠ none`, and equals the model
+    `rejected_move_is_stuck`          converse of progress for the six moves: rejected ⇒ stuck
     `illtyped_rejected_before_rows`   a rejected list: compile-then-wire yields the error, no rows,
                                       although a well-typed PREFIX alone would have produced rows
     `processors_may_dereference`      what a processor may assume of each traveler it receives
@@ -166,6 +167,27 @@ theorem no_stuck_step {τ0 τ : TState} {stmts : List Stmt} {ts : List Traveler}
     have hpres := traversal_preservation_present numOf g hdoc henv h1 hin
     have hprog := progress numOf g hts hal.1 hpres
     exact ⟨τk, τk', h1, hts, by rw [hprog]; exact Option.some_ne_none _, hprog⟩
+
+/-- CONVERSE of progress for the moves: the type checker rejects a move (`out/in/both` to vertices,
+    `outE/inE/bothE` to edges) only where the processor it would build has nothing to stand on —
+    whenever `typeStep` rejects such a statement, the strict semantics is stuck on every non-empty
+    input stream.  So loosening one of these typing rules (admitting `outE` after an edge, `out`
+    after `count`, …) breaks `progress`.  (For other statements a rejection is not always
+    necessary in this sense: `has(and())` after `count` would not be stuck.) -/
+theorem rejected_move_is_stuck (st : TState) (s : Stmt)
+    (hk : s.kind ∈ [Kind.out, .in_, .both, .outE, .inE, .bothE]) (e : TypeErr)
+    (he : typeStep st s = .error e) (t : Traveler) (ts : List Traveler) :
+    evalStepStrict numOf g st.last s (t :: ts) = none := by
+  obtain ⟨last, marks⟩ := st
+  cases s <;> simp [Stmt.kind] at hk <;>
+    (cases last <;> simp [typeStep, moveToVertex, moveToEdge] at he <;>
+      simp [evalStepStrict, flatS, allDefined, stepOutS, stepInS, stepOutES, stepInES, both2])
+
+/-- test: `outE` standing on an edge, `out` standing on a count -/
+example : evalStepStrict numOf gEx .edge (.outE []) [tEdgeAB] = none ∧
+    evalStepStrict numOf gEx .count (.out []) [{ count := 2 }] = none :=
+  ⟨rejected_move_is_stuck numOf gEx ⟨.edge, []⟩ (.outE []) (by simp [Stmt.kind]) .badLastType rfl _ _,
+   rejected_move_is_stuck numOf gEx ⟨.count, []⟩ (.out []) (by simp [Stmt.kind]) .badLastType rfl _ _⟩
 
 /-! ### rejection before any row -/
 
